@@ -212,6 +212,29 @@ Definition vc_pod_request (ippvs plr ippl dra : bool) (p : pod) : res :=
 Definition vc_pod_request_noinit (ippvs plr ippl : bool) (p : pod) : res :=
   vc_amend ippvs plr ippl (vc_regular ippvs p) p.
 
+(* ---- NewTaskInfo (pkg/scheduler/api/job_info.go 207-210, 229-230, 232) ----
+   What the scheduler RESERVES for a pod: TaskInfo.Resreq is charged to the node
+   ledger by NodeInfo.AddTask, TaskInfo.InitResreq is what predicates compare
+   with the idle amount.  The code reads neither the phase, nor spec.nodeName,
+   nor the deletion timestamp for them (these only decide the task STATUS):
+       initResReq := GetPodResourceRequest(pod);  resReq := initResReq
+       bestEffort := initResReq.IsEmpty()
+   The pod's lifecycle position is carried along so that the statement
+   quantifies over it. *)
+Record pod_meta := mkMeta {
+  m_phase : Z;          (* 0 "", 1 Pending, 2 Running, 3 Succeeded, 4 Failed, 5 Unknown *)
+  m_node : bool;        (* spec.nodeName set *)
+  m_deleting : bool     (* metadata.deletionTimestamp set *)
+}.
+
+Definition task_init_resreq (ippvs plr ippl dra : bool) (m : pod_meta) (p : pod) : res :=
+  vc_pod_request ippvs plr ippl dra p.
+Definition task_resreq (ippvs plr ippl dra : bool) (m : pod_meta) (p : pod) : res :=
+  task_init_resreq ippvs plr ippl dra m p.
+(* Resource.IsEmpty with minResource = 0.1 on integer amounts: threshold 1 *)
+Definition task_best_effort (ippvs plr ippl dra : bool) (m : pod_meta) (p : pod) : bool :=
+  is_empty 1 (task_init_resreq ippvs plr ippl dra m p).
+
 (* ================= upstream ================= *)
 
 (* PodResourcesOptions, the fields the scheduler sets; the others are at their
